@@ -512,6 +512,9 @@ func sigReason(r string) string {
 	return "other"
 }
 
+// maxStates bounds the memory of one search (a state carries its artefacts).
+const maxStates = 300_000
+
 func (x *searcher) explore(depth int, ops []Op) {
 	init := &State{V: initialVars(), Art: map[string]string{}, M: newModel()}
 	seen := map[string]bool{init.key(): true}
@@ -550,6 +553,11 @@ func (x *searcher) explore(depth int, ops []Op) {
 		x.r.Add("states_at_depth_"+fmt.Sprint(d), int64(len(next)))
 		x.r.Max("depth_completed", int64(d))
 		frontier = next
+		if total > maxStates && d < depth {
+			// memory bound: states carry their artefacts (a few KB each)
+			x.r.Cap(fmt.Sprintf("state cap %d reached: complete to depth %d, depth %d not explored", maxStates, d, d+1))
+			break
+		}
 	}
 	x.r.Add("states", int64(total))
 	x.r.Add("searches", 1)
